@@ -44,6 +44,14 @@ const maxInitErrorMessageSize = MaxFramePayloadSize - 1 - 25 - 2
 func (ch *Channel) outboundHandshake(ctx context.Context, c net.Conn, outboundHP string, events connectionEvents) (_ *Connection, err error) {
 	defer setInitDeadline(ctx, c)()
 	defer func() {
+		if err != nil {
+			// The handshake is only bounded by the deadline of ctx. If the caller
+			// cancelled while it was pending, report the cancellation rather than
+			// whatever the socket reported once the deadline passed.
+			if ctx.Err() == context.Canceled {
+				err = ErrRequestCancelled
+			}
+		}
 		err = ch.initError(c, outbound, 1, err)
 	}()
 
